@@ -50,12 +50,16 @@ type Cfg struct {
 	Padding   bool   `json:"padding"`
 	Extra     int    `json:"stored_extra_blocks"`         // extension blocks on stored values ("written by others")
 	Foreign   uint32 `json:"foreign_flag_bits,omitempty"` // flag bits outside the synced set on incoming entries (newer/foreign writer)
+	// DelPayload: incoming deletions (format >= 2) still carry the old application payload behind the flag, as an
+	// application with a native schema or a foreign writer may leave it; the stored deletion must be header-only
+	DelPayload bool `json:"deleted_entries_carry_payload,omitempty"`
 }
 
 const lsTxn = 77 // the transaction id handed to the iterator
 
 // foreignBits is set per case from Cfg.Foreign (cases run one at a time per process).
 var foreignBits uint32
+var delPayload bool
 
 // stored bytes for a version, as another writer (an application) would store it
 func storedBytes(v Ver, cfg Cfg, r *rng.R) []byte {
@@ -77,6 +81,9 @@ func toKV(v Ver, format uint32) snapshot.KV {
 	if v.Del {
 		if format >= 2 {
 			kv.Flags |= 1
+			if delPayload {
+				kv.Value = []byte("left-over-payload")
+			}
 		}
 		// format 1: a deletion is an empty value
 	} else {
@@ -471,6 +478,7 @@ func runC02(c runner.Case, env *runner.Env) (res runner.Result) {
 	var p c02Params
 	runner.Params(c, &p)
 	foreignBits = p.Cfg.Foreign
+	delPayload = p.Cfg.DelPayload
 	lc := &lawsChecker{cfg: p.Cfg, res: &res, r: rng.New(p.Seed + 1), tie: map[string]Ver{}}
 	res.Key = c.ID
 	switch p.Part {
